@@ -130,3 +130,156 @@ class MCircuit(Model):
 
     def outputs(self):
         return {n for n in self._attrs if self._attrs[n].get("output", False)}
+
+
+# ---------------------------------------------------------------------------
+# mutable model (for tabulating what a mutator does before it raises)
+# ---------------------------------------------------------------------------
+from .typetables import NO_FANIN, NO_FANOUT, SINGLE_FANIN  # noqa: E402
+
+
+class MMutGraph(Model):
+    def __init__(self, circuit):
+        self._c = circuit
+        self.nodes = MNodeView(circuit._attrs)
+
+    def __contains__(self, n):
+        return n in self._c._attrs
+
+    def __iter__(self):
+        return iter(list(self._c._attrs))
+
+    def add_node(self, n, **attrs):
+        self._c._log.append(("add_node", n, dict(attrs)))
+        self._c._attrs.setdefault(n, {}).update(attrs)
+
+    def add_edges_from(self, edges):
+        for u, v in list(edges):
+            self._c._add_edge(u, v)
+
+    def add_edge(self, u, v):
+        self._c._add_edge(u, v)
+
+    def remove_nodes_from(self, ns):
+        for n in list(ns):
+            self.remove_node(n)
+
+    def remove_node(self, n):
+        self._c._log.append(("remove_node", n))
+        self._c._attrs.pop(n, None)
+        for d in (self._c._fanin, self._c._fanout):
+            d.pop(n, None)
+            for s in d.values():
+                s.discard(n)
+
+    def remove_edges_from(self, edges):
+        for u, v in list(edges):
+            self._c._log.append(("remove_edge", u, v))
+            self._c._fanout.get(u, set()).discard(v)
+            self._c._fanin.get(v, set()).discard(u)
+
+    def predecessors(self, n):
+        return iter(sorted(self._c._fanin.get(n, ())))
+
+    def successors(self, n):
+        return iter(sorted(self._c._fanout.get(n, ())))
+
+
+def reference_connect_error(c, us, vs):
+    """The legality rules of the property statement (C07); returns an error string or None."""
+    for n in list(us) + list(vs):
+        if n not in c._attrs:
+            return f"node {n} does not exist"
+    for v in vs:
+        t = c._attrs[v].get("type")
+        if t in NO_FANIN:
+            return f"fan-in on {t}"
+        if t in SINGLE_FANIN and len(c._fanin.get(v, ())) + len(set(us) - c._fanin.get(v, set())) > 1:
+            return f"more than one fan-in on {t}"
+    for u in us:
+        t = c._attrs[u].get("type")
+        if t in NO_FANOUT:
+            return f"fan-out from {t}"
+        if t == "bb_output":
+            for v in vs:
+                if c._attrs[v].get("type") != "buf":
+                    return "bb_output drives a non-buf"
+            if len(c._fanout.get(u, ())) + len(set(vs) - c._fanout.get(u, set())) > 1:
+                return "bb_output drives more than one node"
+    return None
+
+
+class MMutCircuit(MCircuit):
+    """Mutable model; `connect`/`uid` follow the reference semantics unless overridden."""
+
+    def __init__(self, attrs, edges=(), blackboxes=None, name="m"):
+        super().__init__(attrs, edges, blackboxes, None, name)
+        self._log = []
+        self.graph = MMutGraph(self)
+
+    def _add_edge(self, u, v):
+        self._log.append(("add_edge", u, v))
+        for n in (u, v):
+            self._attrs.setdefault(n, {})
+        self._fanout.setdefault(u, set()).add(v)
+        self._fanin.setdefault(v, set()).add(u)
+
+    def connect(self, us, vs):
+        if not us or not vs:
+            return None
+        if isinstance(us, str):
+            us = [us]
+        if isinstance(vs, str):
+            vs = [vs]
+        us, vs = list(us), list(vs)
+        err = reference_connect_error(self, us, vs)
+        if err:
+            raise ModelRaise("ValueError", err)
+        for u in us:
+            for v in vs:
+                self._add_edge(u, v)
+        return None
+
+    def uid(self, n, blocked=None):
+        blocked = blocked or []
+        if n not in self._attrs and n not in blocked:
+            return n
+        i = 0
+        while f"{n}_{i}" in self._attrs or f"{n}_{i}" in blocked:
+            i += 1
+        return f"{n}_{i}"
+
+    def add(self, n, node_type, **kw):
+        # used only for `add_connected_nodes` recursion: self.add(f, "buf")
+        self._log.append(("add_node", n, {"type": node_type}))
+        self._attrs.setdefault(n, {}).update({"type": node_type, "output": False})
+        return n
+
+    def set_type(self, ns, t):
+        for n in [ns] if isinstance(ns, str) else list(ns):
+            self._log.append(("set_type", n, t))
+            self._attrs[n]["type"] = t
+
+    def set_output(self, ns, output=True):
+        for n in [ns] if isinstance(ns, str) else list(ns):
+            self._attrs[n]["output"] = output
+
+    def edges(self):
+        return {(u, v) for u, vs in self._fanout.items() for v in vs}
+
+    def illegal(self):
+        """List of violated wiring invariants (the C07 list)."""
+        bad = []
+        for n, a in self._attrs.items():
+            t = a.get("type")
+            fi = len(self._fanin.get(n, ()))
+            fo = self._fanout.get(n, set())
+            if t in NO_FANIN and fi:
+                bad.append(f"fan-in on {t} {n}")
+            if t in SINGLE_FANIN and fi > 1:
+                bad.append(f">1 fan-in on {t} {n}")
+            if t in NO_FANOUT and fo:
+                bad.append(f"fan-out from {t} {n}")
+            if t == "bb_output" and (len(fo) > 1 or any(self._attrs[v].get("type") != "buf" for v in fo)):
+                bad.append(f"bb_output {n} load")
+        return bad
